@@ -1263,7 +1263,8 @@ let run_notify (path : string) =
             let acts = List.map (fun a ->
                 if a.[0] = 'x' then Cancel (nat_of_int (int_of_string (String.sub a 1 (String.length a - 1))))
                 else Step (nat_of_int (int_of_string a))) (String.split_on_char ',' sched) in
-            let s1 = nrun (ninit (z_of_string init) threads) acts in
+            (* Notify.xrun: the base system plus pending cancellations (a context that ends before the waiter parks) *)
+            let s1 = (xrun { base = ninit (z_of_string init) threads; canc = [] } acts).base in
             (* a parked waiter whose channel has been closed wakes by itself: flush those enabled steps *)
             let parked = List.concat (List.mapi (fun i p -> match p with W4 _ -> [Step (nat_of_int i)] | _ -> []) s1.threads) in
             let s' = nrun s1 parked in
